@@ -4,6 +4,7 @@
 package main
 
 import (
+	"io"
 	"crypto/sha256"
 	"encoding/hex"
 	"encoding/json"
@@ -52,6 +53,25 @@ type RunOpt struct {
 	Nil    bool `json:"nil,omitempty"`
 	Always bool `json:"always,omitempty"`
 	Dry    bool `json:"dry,omitempty"`
+	// Target: the label to run (default: the sequence's RunTarget)
+	Target string `json:"target,omitempty"`
+	// GC: not a Run but Project.GC() on the same loaded project
+	GC bool `json:"gc,omitempty"`
+	// Repl: go through the REPL builtin run(label, always=…, dry_run=…); a keyword is passed only when its *Set flag is on
+	Repl      bool `json:"repl,omitempty"`
+	AlwaysSet bool `json:"alwaysSet,omitempty"`
+	DrySet    bool `json:"drySet,omitempty"`
+}
+
+// effective: the options the run is meant to execute with
+func (o RunOpt) effective() (always, dry bool) {
+	if o.Repl {
+		return o.AlwaysSet && o.Always, o.DrySet && o.Dry
+	}
+	if o.Nil {
+		return false, false
+	}
+	return o.Always, o.Dry
 }
 
 var (
@@ -354,22 +374,65 @@ func childMain(specPath string) int {
 		if err != nil {
 			return exitUsage
 		}
+		ever := map[string]bool{}
 		for i, ro := range spec.Runs {
 			ctl.appendLine("events.log", fmt.Sprintf("RUN\t%d", i))
 			ctl.appendLine("exec.log", fmt.Sprintf("RUN\t%d", i))
 			succM.Lock()
 			succeeded = nil
 			succM.Unlock()
-			var opts *dawn.RunOptions
-			if !ro.Nil {
-				opts = &dawn.RunOptions{Always: ro.Always, DryRun: ro.Dry}
-			}
 			ctl.phase = "run"
-			err := proj.Run(l, opts)
+			if ro.GC {
+				err := proj.GC()
+				ctl.appendLine("events.log", "RR\t"+errStr(err))
+				var ls []string
+				for sl := range ever {
+					ls = append(ls, sl)
+				}
+				sort.Strings(ls)
+				for _, sl := range ls {
+					stamp, rerun, ok := dawn.VerifRecord(proj, sl)
+					good := "bad"
+					if ok && !rerun && stamp != "" {
+						good = "good"
+					}
+					ctl.appendLine("events.log", "REC2\t"+sl+"\t"+good)
+				}
+				continue
+			}
+			tl := l
+			if ro.Target != "" {
+				if tl, err = label.Parse(ro.Target); err != nil {
+					return exitUsage
+				}
+			}
+			var err error
+			if ro.Repl {
+				thread, globals := proj.REPLEnv(io.Discard, &label.Label{Package: "//"})
+				var kwargs []starlark.Tuple
+				if ro.AlwaysSet {
+					kwargs = append(kwargs, starlark.Tuple{starlark.String("always"), starlark.Bool(ro.Always)})
+				}
+				if ro.DrySet {
+					kwargs = append(kwargs, starlark.Tuple{starlark.String("dry_run"), starlark.Bool(ro.Dry)})
+				}
+				_, err = starlark.Call(thread, globals["run"], starlark.Tuple{starlark.String(tl.String())}, kwargs)
+			} else {
+				var opts *dawn.RunOptions
+				if !ro.Nil {
+					opts = &dawn.RunOptions{Always: ro.Always, DryRun: ro.Dry}
+				}
+				err = proj.Run(tl, opts)
+			}
 			ctl.appendLine("events.log", "RR\t"+errStr(err))
 			succM.Lock()
 			ss := append([]string{}, succeeded...)
 			succM.Unlock()
+			if _, dry := ro.effective(); !dry {
+				for _, sl := range ss {
+					ever[sl] = true
+				}
+			}
 			for _, sl := range ss {
 				stamp, rerun, ok := dawn.VerifRecord(proj, sl)
 				good := "bad"
